@@ -145,3 +145,7 @@ func enumSeq(n int, maxLen int, f func(idx []int)) {
 	}
 	rec(nil)
 }
+
+func decodeRuneGo(b []byte) (rune, int) {
+	return utf8DecodeRune(b)
+}
